@@ -44,6 +44,19 @@ def _r1(ctx):
     cyc, ports = U(l.target.elts[0]), U(l.target.elts[1])
     inner = [n for n in ast.walk(l) if isinstance(n, ast.For) and U(n.iter) == ports]
     ctx.check(len(inner) == 1, "R1", "every port of a micro-op is visited", f.where(l), "ports of a micro-op are not iterated", f.qname, "port loop")
+    # the micro-op's (cycles, ports) pair is used as unpacked: neither name is re-bound before the split
+    rebound = [n for n in ast.walk(l) if isinstance(n, (ast.Assign, ast.AugAssign)) and any(
+        isinstance(t, ast.Name) and t.id in (cyc, ports) for t in (n.targets if isinstance(n, ast.Assign) else [n.target]))]
+    # a copy of the same collection keeps the set of ports
+    rebound = [n for n in rebound if not (isinstance(n, ast.Assign) and U(n.value) in (
+        "list(%s)" % ports, "tuple(%s)" % ports, "sorted(%s)" % ports, "set(%s)" % ports, "float(%s)" % cyc))]
+    for n in rebound:
+        ctx.node_bad("R1", f, n, "`%s` re-binds the %s of the micro-op before it is split: the port set that is charged is no longer the one "
+                     "the model entry lists (a port string such as '12' that is also a port name would be charged as the single "
+                     "port 12 instead of ports 1 and 2, while every other consumer still reads it as a set)" % (
+                         U(n), "ports" if any(isinstance(t, ast.Name) and t.id == ports for t in (n.targets if isinstance(n, ast.Assign) else [n.target])) else "cycles"))
+    if not rebound:
+        ctx.ok("R1", "(cycles, ports) of a micro-op are used as unpacked", f.where(l))
     if inner:
         p = U(inner[0].target)
         upd = [n for n in ast.walk(f.node) if isinstance(n, (ast.AugAssign, ast.Assign)) and any(
